@@ -333,8 +333,10 @@ def _coinciding_delays(spec):
             if k == 'const' and v.startswith('tau'):
                 vals.append(F(val))
     # (edge delays are literals: two edges with the same numeric delay share ONE history matrix, whatever the Python type
-    # the number was written in; only delay PARAMETERS that happen to hold equal values cannot be told apart)
-    return len(vals) != len(set(vals))
+    # the number was written in; a delay PARAMETER that happens to hold the value of another parameter or of an edge delay
+    # keeps a matrix of its own, which cannot be told apart by value)
+    edge_vals = {F(e.delay) for e in spec.edges if e.delay is not None}
+    return len(vals) != len(set(vals)) or any(v in edge_vals for v in vals)
 
 
 def _replay(c_run, c_jac, b1, b2, env, what, ny, adaptive):
